@@ -277,13 +277,12 @@ def evaluate__translate(self: XPathFunction, context: ta.ContextType = None) -> 
         message = "the 3rd argument of fn:translate() cannot be the empty sequence"
         raise self.error('XPTY0004', message)
 
-    if len(map_string) == len(trans_string):
-        return arg.translate(str.maketrans(map_string, trans_string))
-    elif len(map_string) > len(trans_string):
-        k = len(trans_string)
-        return arg.translate(str.maketrans(map_string[:k], trans_string, map_string[k:]))
-    else:
-        return arg.translate(str.maketrans(map_string, trans_string[:len(map_string)]))
+    # If a character occurs more than once in the map string the first occurrence counts
+    table: dict[int, Any] = {}
+    for k, char in enumerate(map_string):
+        if ord(char) not in table:
+            table[ord(char)] = trans_string[k] if k < len(trans_string) else None
+    return arg.translate(table)
 
 
 def round_half_up(value: Any) -> int:
